@@ -289,6 +289,22 @@ def moving_visitor_scripts():
     return out
 
 
+def sort_pattern_scripts():
+    """sorts of structured inputs of 2..24 elements: two ascending runs with the second entirely below
+    the first (rotations of a sorted sequence at every split point), reversed, sawtooth, all equal,
+    organ pipe - then the tail is used (a merge sort that special-cases such inputs is a classic)"""
+    out = []
+    for n in list(range(2, 17)) + [20, 24]:
+        base = list(range(1, n + 1))
+        pats = [list(reversed(base)), [1] * n, [k % 3 for k in range(n)],
+                [min(k, n - 1 - k) for k in range(n)], base]
+        pats += [base[k:] + base[:k] for k in sorted(set([1, n // 2, (n + 1) // 2, n - 1]))]
+        for keys in pats:
+            out.append(["keys " + " ".join(map(str, keys))] + ["pushb 1 %d" % (10 + i) for i in range(n)]
+                       + ["sort 1"] + ['back 1', 'front 1', 'pushb 1 40', 'popb 1', 'foreach 1 r -1 0'])
+    return out
+
+
 def bigsort_scripts(rng, quick):
     """long lists: a sort is judged element by element inside the harness (lengths around
     powers of two and in between; the small-scope closures stay below 6 elements)"""
